@@ -307,12 +307,11 @@ def job_windows(j, seed):
     lo, hi = C.sym_var('lo'), C.sym_var('hi')
     C.CTX.assume(lo < hi)
     da = sc.DataArray(sc.array(dims=['x'], values=[1.0, 2.0, 3.0]), coords={'x': sc.array(dims=['x'], values=[lo, (lo + hi) / 2, hi])})
+    # estimates sorted (the documented requirement), anywhere on the axis: an estimate outside the data range is
+    # not refused by fit_peaks, it has to end in an (empty) window inside the range, not in an inverted or outlying one
     cs = [C.sym_var(f'c{i}') for i in range(npk)]
     for a, b in zip(cs, cs[1:]):
-        C.CTX.assume(a < b)
-    for c in cs:
-        C.CTX.assume(c >= lo)
-        C.CTX.assume(c <= hi)
+        C.CTX.assume(a <= b)
     w = C.sym_var('width', sign='+')
     centers = sc.array(dims=['x'], values=cs)
     params = fp.FitParameters()
@@ -329,12 +328,14 @@ def job_windows(j, seed):
         good = C.TRUE
         for i in range(npk):
             l, r = win.values[i][0], win.values[i][1]
-            good = good & (lo <= l) & (l <= cs[i]) & (cs[i] <= r) & (r <= hi)
+            inrange = (lo <= cs[i]) & (cs[i] <= hi)
+            good = good & (lo <= l) & (l <= r) & (r <= hi) & (~inrange | ((l <= cs[i]) & (cs[i] <= r)))
+            # the distance to a neighbour is owed by every window that can hold a point (l < r)
             if i > 0:
-                good = good & (l >= cs[i - 1] + (cs[i] - cs[i - 1]) * fac)
+                good = good & (~(l < r) | (l >= cs[i - 1] + (cs[i] - cs[i - 1]) * fac))
             if i < npk - 1:
-                good = good & (r <= cs[i + 1] - (cs[i + 1] - cs[i]) * fac)
-        ob = C.prove(f'windows[{npk}]:path{k}:inside the data range, contain the estimate, keep the neighbour separation', good, pc=p.pc, timeout_ms=20000)
+                good = good & (~(l < r) | (r <= cs[i + 1] - (cs[i + 1] - cs[i]) * fac))
+        ob = C.prove(f'windows[{npk}]:path{k}:inside the data range and not inverted (any estimate), contain an in-range estimate, keep the neighbour separation', good, pc=p.pc, timeout_ms=20000)
         obs.append(ob_dict(ob))
         if ob.status == 'violated':
             cands.append(('C17:windows', {**case, 'model': {k_: float(v) for k_, v in (ob.model or {}).items()}}, 'window property'))
@@ -570,6 +571,39 @@ def replay_real(case):
                     bad.append(f'peak with FWHM {fwhm} marked successful on grid {xs.tolist()} (centre {model["loc"]}, nearest point {c}): spacing taken from a wrapped index')
         except KeyError:
             pass
+    elif kind == 'windows' and case.get('model'):
+        m = case['model']
+        npk = case['npeaks']
+        lo, hi, width = m['lo'], m['hi'], m['width']
+        cs = [m[f'c{i}'] for i in range(npk)]
+        x = np.linspace(lo, hi, 60)
+        rng = np.random.default_rng(3)
+        y = 1.0 + rng.random(60)
+        da = sc.DataArray(sc.array(dims=['x'], values=y, variances=0.01 + 0 * y), coords={'x': sc.array(dims=['x'], values=x)})
+        est = sc.array(dims=['x'], values=cs)
+        pars = fp.FitParameters()
+        fac = pars.neighbor_separation_factor
+        try:
+            v = fp._fit_windows(da, est, sc.scalar(width), pars).values
+            for i, c in enumerate(cs):
+                l, r = v[i]
+                if not (lo <= l <= r <= hi):
+                    bad.append(f'window {v[i].tolist()} for estimate {c} (data range [{lo}, {hi}]) is inverted or leaves the data range')
+                elif lo <= c <= hi and not (l <= c <= r):
+                    bad.append(f'window {v[i].tolist()} does not contain its estimate {c}')
+                elif l < r and ((i > 0 and l < cs[i - 1] + (c - cs[i - 1]) * fac - 1e-12 * abs(c)) or (i < npk - 1 and r > cs[i + 1] - (cs[i + 1] - c) * fac + 1e-12 * abs(c))):
+                    bad.append(f'window {v[i].tolist()} of estimate {c} too close to a neighbouring estimate ({cs})')
+        except Exception as e:  # noqa: BLE001
+            bad.append(f'_fit_windows raises {type(e).__name__}: {e}')
+        try:
+            import warnings
+            with warnings.catch_warnings():
+                warnings.simplefilter('ignore')
+                res = peaks.fit_peaks(da, peak_estimates=est, windows=sc.scalar(width), background='linear', peak='gaussian')
+            if len(res) != npk:
+                bad.append(f'{len(res)} results for {npk} estimates')
+        except Exception as e:  # noqa: BLE001
+            bad.append(f'fit_peaks raises {type(e).__name__}: {e} for estimates {cs} on data range [{lo}, {hi}]')
     elif kind in ('windows', 'loop', 'stats', 'remove'):
         da = mkdata(300)
         est = sc.array(dims=['x'], values=[2.0, 5.0, 5.6, 9.9])
